@@ -12,6 +12,21 @@ NEG = {"<": ">=", "<=": ">", ">": "<=", ">=": "<", "==": "!=", "!=": "==", "is":
        "in": "not in", "not in": "in"}
 
 
+def _upper_bounded(conds, key, size):
+    """Do the path conditions bound `key` below `size` (key < c with c <= size, key <= c with c < size, key == c in range)?"""
+    for c in conds:
+        t, pol = c.term, c.pol
+        while isinstance(t, tuple) and t and t[0] == "not":
+            t, pol = t[1], not pol
+        if isinstance(t, tuple) and t[0] == "cmp" and t[2] == key and is_const(t[3]) and isinstance(t[3][1], int):
+            op, cst = t[1], t[3][1]
+            if not pol:
+                op = {"<": ">=", "<=": ">", ">": "<=", ">=": "<", "==": "!=", "!=": "=="}.get(op, op)
+            if (op == "<" and cst <= size) or (op == "<=" and cst < size) or (op == "==" and 0 <= cst < size):
+                return True
+    return False
+
+
 class ExprMixin:
 
     def exc(self, st, cls, *args):
@@ -283,9 +298,9 @@ class ExprMixin:
                 st.hits.add((base[1], key))
                 yield "ok", ("elem", base[1], key), st
                 return
-            if base[0] == "constobj":
+            if base[0] == "constobj" or (base[0] == "const" and isinstance(base[1], tuple) and base[1]):
                 try:
-                    v = self.constobj_value(base)
+                    v = self.constobj_value(base) if base[0] == "constobj" else base[1]
                 except NotConst:
                     v = None
                 if isinstance(v, dict):
@@ -308,7 +323,18 @@ class ExprMixin:
                     if is_const(key) and isinstance(key[1], int) and -len(v) <= key[1] < len(v):
                         yield "ok", const(v[key[1]]), st
                         return
-                    self.emit(st, fx, "CONSTSEQ", node, obj=base, key=key, size=len(v))
+                    ev = self.emit(st, fx, "CONSTSEQ", node, obj=base, key=key, size=len(v))
+                    if v and len(v) <= 16 and all(isinstance(x, str) for x in v):
+                        # a small table of names (dispatch table written as a sequence): every entry, or an index past the end
+                        if not _upper_bounded(ev.conds, key, len(v)):
+                            s_miss = st.fork()
+                            self.emit(s_miss, fx, "CONSTMAP", node, obj=base, key=key, hit=False)
+                            yield "raise", self.exc(s_miss, "IndexError", key), s_miss
+                        for k, val in enumerate(v):
+                            s_k = st.fork()
+                            self.emit(s_k, fx, "CONSTMAP", node, obj=base, key=key, hit=True, kval=k, val=val)
+                            yield "ok", const(val), s_k
+                        return
                     yield "ok", ("sub", base, key), st
                     return
             if base[0] == "const" and isinstance(base[1], (dict,)):
